@@ -33,6 +33,8 @@ def main():
     if not os.path.isdir(src):
         src = f"/tmp/seed7-{prop}/SEED/{var}"
     if not os.path.isdir(src):
+        src = f"/tmp/seed8-{prop}/SEED/{var}"
+    if not os.path.isdir(src):
         src = f"/verif/seeded/{prop}-{var}"   # already stored: re-run from the stored copy
     name = f"{prop}-{var}"
     dst = f"/verif/seeded/{name}"
